@@ -3,7 +3,12 @@
 For every listed operation f: f(chart) is compared with f(chart whose lists have their rows permuted).  Writers are compared
 (a) through the library's own reader, as multisets of objects, and (b) on the written text with a small independent reading of
 each format in which only order-insensitive parts are compared as multisets.  Other results are compared as multisets of rows /
-as values."""
+as values.
+
+Again-cases (`again: true`): every operation is first called on the chart in its original order, then the lists of that SAME chart object
+are replaced by re-ordered ones, then every operation is called again on it (nothing kept from the first call may show).  write_file is also
+run on a path that already holds another, longer file (and twice); a converted chart is written twice; the ...ToBMS converters also get a
+negative column shift (on notes moved right before)."""
 from __future__ import annotations
 
 import collections
@@ -100,6 +105,12 @@ def _make(spec, perms, mode):
     if spec.get("dtype") == "int":
         for name, l in chart_lists(m).items():
             setattr(m, name, _int_typed(l))
+    _reorder(m, perms, mode)
+    return obj
+
+
+def _reorder(m, perms, mode):
+    """the lists of the chart object m are replaced (assignment of a new list) by re-ordered ones"""
     if mode == "reverse_sort":
         for name, l in chart_lists(m).items():
             if len(l):
@@ -109,7 +120,6 @@ def _make(spec, perms, mode):
         for name, perm in perms.items():
             if name in ls and len(ls[name]) == len(perm):
                 setattr(m, name, _perm_list(ls[name], perm, mode))
-    return obj
 
 
 # ---------------------------------------------------------------------------------------------------------------- canonical forms
@@ -314,7 +324,7 @@ def _ops(game):
         for nm, f in (("O2JToOsu", lambda o: O2JToOsu.convert(o)), ("O2JToQua", lambda o: O2JToQua.convert(o)), ("O2JToSM", lambda o: O2JToSM.convert(o)), ("O2JToBMS", lambda o: O2JToBMS.convert(o))):
             add("convert_" + nm, (lambda o, f=f: _canon(f(o))))
     # ---- other entry points / argument values / operation sequences (EXTRA_OPS: run on the joint cases of every chart)
-    def via_file(o, suffix, mode="r"):
+    def via_file(o, suffix, mode="r", used_path=False):
         import os
         import pathlib
         import tempfile
@@ -322,6 +332,16 @@ def _ops(game):
         fd, path = tempfile.mkstemp(suffix=suffix)
         os.close(fd)
         try:
+            if used_path:
+                # the path ALREADY holds another, longer file (another chart + left-over lines), and the chart is written to it twice:
+                # the file afterwards denotes the chart written last
+                try:
+                    o.rate(0.5).write_file(pathlib.Path(path))
+                except Exception:
+                    pass
+                with open(path, "ab") as fh:
+                    fh.write(b"\r\n#LEFTOVER 00\r\n0,0,0,0,0\r\n" * 400)
+                o.write_file(pathlib.Path(path))
             o.write_file(pathlib.Path(path))
             with (open(path, "rb") if mode == "rb" else open(path, "r", encoding="utf8", newline="")) as fh:
                 return fh.read()
@@ -332,6 +352,38 @@ def _ops(game):
         EXTRA_OPS.add(name)
         add(name, fn, clause)
 
+    def shifted(o, by):
+        """a copy whose note columns were moved through the list property (in place, on the copy)"""
+        r = o.deepcopy()
+        for m in (r.maps if hasattr(r, "maps") else [r]):
+            for l in (m.hits, m.holds):
+                if len(l):
+                    l.column += by
+        return r
+
+    def twice(w):
+        w()
+        return w()
+
+    if game == "osu":
+        x("write_file_used_path_text", lambda o: _osu_text([via_file(o, ".osu", used_path=True)]), "osu_write_file_text")
+        x("convert_write_twice_text", lambda o: (lambda r: _qua_text(twice(r.write)))(OsuToQua.convert(o, raise_bad_mode=False)), "sequence_convert_write")
+        x("convert_OsuToBMS_negative_shift", lambda o: _canon(OsuToBMS.convert(shifted(o, 3), move_right_by=-2)), "convert_OsuToBMS")
+    if game == "qua":
+        x("write_file_used_path_text", lambda o: _qua_text(via_file(o, ".qua", used_path=True)), "qua_write_file_text")
+        x("convert_write_twice_text", lambda o: (lambda r: _osu_text(twice(r.write)))(QuaToOsu.convert(o)), "sequence_convert_write")
+        x("convert_QuaToBMS_negative_shift", lambda o: _canon(QuaToBMS.convert(shifted(o, 3), move_right_by=-2)), "convert_QuaToBMS")
+    if game == "bms":
+        x("write_file_used_path_text", lambda o: _bms_text(via_file(o, ".bms", "rb", used_path=True)), "bms_write_file_text")
+        x("convert_write_twice_text", lambda o: (lambda r: _osu_text(twice(r.write)))(BMSToOsu.convert(o)), "sequence_convert_write")
+    if game == "sm":
+        x("write_file_used_path_text", lambda o: _sm_text(via_file(o, ".sm", used_path=True)), "sm_write_file_text")
+        x("convert_write_twice_text", lambda o: [_osu_text(twice(m.write)) for m in SMToOsu.convert(o)], "sequence_convert_write")
+    if game == "o2j":
+        # (to .osu as in convert_then_write_text: in a .bms grid head and end of a zero-length hold share one cell of one lane - a tie)
+        x("convert_write_twice_text", lambda o: [_osu_text(twice(m.write)) for m in O2JToOsu.convert(o)], "sequence_convert_write")
+        x("convert_O2JToBMS_negative_shift", lambda o: _canon(O2JToBMS.convert(shifted(o, 3), move_right_by=-2)), "convert_O2JToBMS")
+        x("convert_O2JToBMS_no_shift", lambda o: _canon(O2JToBMS.convert(shifted(o, 1), move_right_by=0)), "convert_O2JToBMS")
     if game == "osu":
         x("write_file_text", lambda o: _osu_text([via_file(o, ".osu")]), "osu_write_file_text")
         x("convert_OsuToBMS_default_shift", lambda o: _canon(OsuToBMS.convert(o)), "convert_OsuToBMS")
@@ -416,7 +468,8 @@ def _base_result(spec, opname, fn):
 
 
 def _run_case(case, stats=None):
-    """case: dict(spec=, perms={list: permutation}, mode='construct'|'iloc'|'reset'|'append'|'reverse_sort', ops=None|[names])"""
+    """case: dict(spec=, perms={list: permutation}, mode='construct'|'iloc'|'reset'|'append'|'reverse_sort', ops=None|[names],
+    again=None|True: the re-ordering is applied to a chart object on which every operation has been called before)"""
     import logging
 
     logging.disable(logging.WARNING)  # (the library logs a line per re-seated tempo point)
@@ -431,17 +484,31 @@ def _run_case_(case, stats=None):
     game = spec["game"]
     out = []
     dom = {}
-    permuted = _make(spec, perms, mode)
-    for name, clause, fn in _ops(game):
-        if case.get("ops") and name not in case["ops"]:
-            continue
+    again = bool(case.get("again"))
+    todo = [(name, clause, fn) for name, clause, fn in _ops(game) if not (case.get("ops") and name not in case["ops"])]
+    if again:
+        # call - legitimate change - call again: every operation is first called on the chart in its ORIGINAL row order, then the lists of
+        # that same chart object are replaced by the re-ordered ones (assignment of a new list), then every operation is called again on
+        # that object: the second results are compared.  (Nothing remembered from the first calls may show.)
+        permuted = _make(spec, None, None)
+        for name, clause, fn in todo:
+            if _base_result(spec, name, fn)[0] == "ok":
+                try:
+                    fn(permuted)
+                except Exception:
+                    pass
+        _reorder(_chart_of(permuted), perms, mode)
+    else:
+        permuted = _make(spec, perms, mode)
+    for name, clause, fn in todo:
         st, base = _base_result(spec, name, fn)
         if st == "raised":
             if stats is not None:
                 stats.setdefault("operations_raising_on_the_unpermuted_chart", {}).setdefault(f"{game}:{name}", base[:100])
             continue
         try:
-            got = fn(copy.deepcopy(permuted))  # a fresh copy per operation: some operations change their input (C14)
+            # a fresh copy per operation: some operations change their input (C14); again-cases keep the object that was used before
+            got = fn(permuted if again else copy.deepcopy(permuted))
         except Exception as ex:
             out.append((clause, f"{name}: fine on the chart, raises on the chart with permuted rows: {type(ex).__name__}: {ex}"))
             continue
@@ -701,14 +768,20 @@ def _c15_game(rep, game):
             if not _is_joint(case) or (quick and cs["mode"] not in ("reverse_sort", "construct", "sorted")):
                 case["ops"] = [o for o in ops if o not in EXTRA_OPS]
             cases.append(case)
+        # call - change - call again on ONE chart object (all operations, also the joint-only ones): the lists are re-ordered after the
+        # operations have been called once
+        ident = {k: list(range(v)) for k, v in _list_sizes(spec).items()}
+        for mode, how in ((("iloc", "rnd"),) if quick else (("iloc", "rnd"), ("reverse_sort", None), ("append", "rev"), ("sorted", "rot"), ("concat", "rnd"))):
+            cases.append(dict(spec=spec, ops=ops, mode=mode, perms=_joint(ident, how, rng) if how else {}, again=True))
         # joint re-orderings first - one of each history (unsorted construction, reverse sort, sort(), labels travelling, concatenation, ...)
         # before the second of any - then the single-list permutations
         seen_modes, keyed = {}, []
         for case in cases:
             single = not _is_joint(case)
-            k = seen_modes.get((single, case["mode"]), 0)
-            seen_modes[(single, case["mode"])] = k + 1
-            keyed.append(((single, k, _HISTORY_PRIORITY.get(case["mode"], 9)), len(keyed), case))
+            hist = ("again_" if case.get("again") else "") + case["mode"]
+            k = seen_modes.get((single, hist), 0)
+            seen_modes[(single, hist)] = k + 1
+            keyed.append(((single, k, 2.5 if case.get("again") else _HISTORY_PRIORITY.get(case["mode"], 9)), len(keyed), case))
         keyed.sort(key=lambda x: (x[0], x[1]))
         plan.append((label, [c for _, _, c in keyed]))
     # round robin over the charts: a time budget on a busy machine thins every chart's cases instead of dropping whole charts
@@ -720,7 +793,7 @@ def _c15_game(rep, game):
                 stopped = True
                 break
             case = cases[r]
-            by_mode[case["mode"]] = by_mode.get(case["mode"], 0) + 1
+            by_mode[("again_" if case.get("again") else "") + case["mode"]] = by_mode.get(("again_" if case.get("again") else "") + case["mode"], 0) + 1
             rep.case(case, nontrivial=True)
             n += 1
             for what, d in _run_case(case, stats):
@@ -744,8 +817,9 @@ def _c15_game(rep, game):
                  f"append without sort) + sort after unsorted construction + concatenation of two lists{'' if quick else ' + append(sort=True)'} + {rep.n(4, 12)} random joint shuffles; larger chart: {rep.n(12, 30)} (sm/bms quick: 8) random joint shuffles; "
                  f"edge charts: reverse sort + {'4' if quick else '21 + 6 random'} joint re-orderings over the histories construction / labels travelling / sort() / concatenation{'' if quick else ' / fresh labels / append / append(sort=True)'}; every case runs "
                  f"{len(all_ops) - len(EXTRA_OPS & set(all_ops))} operations, the joint cases{' of the histories reverse sort / construction / sort()' if quick else ''} {len(EXTRA_OPS & set(all_ops))} more (write_file, other argument values: rate 0.75{', other layout + placeholder' if game == 'bms' else ''}"
-                 f"{', default column shift' if game == 'osu' else ''}; sequences convert -> write and rate -> write); cases are run round robin over the charts, joint re-orderings first; {n} cases, per history {by_mode}")
-    rep.rule = "a case is (chart, permutation of its lists, history that produced the order); f(chart) vs f(permuted chart) for every operation f (incl. write_file and two-operation sequences on the joint cases)"
+                 f"{', default column shift' if game == 'osu' else ''}; sequences convert -> write and rate -> write; write_file to a path that already holds another, longer file, twice; a converted chart written twice; a NEGATIVE column shift "
+                 f"on notes moved right before); + {'1' if quick else '5'} call-change-call-again case(s) per chart (every operation called on the chart, then the lists of that same object replaced by re-ordered ones, then every operation called again); cases are run round robin over the charts, joint re-orderings first; {n} cases, per history {by_mode}")
+    rep.rule = "a case is (chart, permutation of its lists, history that produced the order); f(chart) vs f(permuted chart) for every operation f (incl. write_file and two-operation sequences on the joint cases); in the again-cases the permuted chart is an object every f has been called on before"
 
 
 def _mk(game):
